@@ -2743,7 +2743,12 @@ primary_expression
           {
             case OBJECT_TYPE_INTEGER:
               $$.type = EXPRESSION_TYPE_INTEGER;
-              $$.value.integer = $1.value.object->value.i;
+              // A top-level integer object is an external variable. Its value
+              // can be redefined after compilation, so the value it has now
+              // must not be taken for a compile-time constant.
+              $$.value.integer = ($1.value.object->parent == NULL)
+                  ? YR_UNDEFINED
+                  : $1.value.object->value.i;
               break;
             case OBJECT_TYPE_FLOAT:
               $$.type = EXPRESSION_TYPE_FLOAT;
